@@ -19,12 +19,12 @@ def base_from_log(log):
 
 
 def run_config(report, module, observer=None, overrides=None, judge_generic=True, spec_only=False,
-               tag='', wd=None, workers=16, report_kinds=None, cfg=None):
+               tag='', wd=None, workers=16, report_kinds=None, cfg=None, timeout=1800):
     """TLC BFS over `module` (exhaustive within its MaxCalls), dump every state, replay all."""
     own = wd is None
     wd = wd or tlc.workdir()
     try:
-        r = tlc.run(module, cfg=cfg, wd=wd, dump=not spec_only, overrides=overrides, workers=workers)
+        r = tlc.run(module, cfg=cfg, wd=wd, dump=not spec_only, overrides=overrides, workers=workers, timeout=timeout)
         report.add_tlc(r)
         if spec_only:
             return r
